@@ -461,7 +461,28 @@ class Snippet:
                                 break
                         k += 1
                     be = k
-                out.append(dict(start=cstart, bar=i, params=t[i + 1:pclose] if pclose > i else '',
+                # callee: identifier before the nearest enclosing unmatched '('
+                callee = None
+                depth = 0
+                k2 = cstart - 1
+                while k2 >= start:
+                    if m[k2] == CODE:
+                        if t[k2] in ')]}':
+                            depth += 1
+                        elif t[k2] in '([{':
+                            if depth == 0:
+                                if t[k2] == '(':
+                                    e2 = k2
+                                    while e2 > start and t[e2 - 1] in ' \t\r\n':
+                                        e2 -= 1
+                                    b2 = e2
+                                    while b2 > start and _is_ident(t[b2 - 1]):
+                                        b2 -= 1
+                                    callee = t[b2:e2] or None
+                                break
+                            depth -= 1
+                    k2 -= 1
+                out.append(dict(start=cstart, bar=i, callee=callee, params=t[i + 1:pclose] if pclose > i else '',
                                 params_close=pclose, body_start=b, body_end=be, is_block=is_block,
                                 ret_ty=ret_ty, move=cstart != i))
                 i = pclose + 1
